@@ -17,14 +17,13 @@ not-negative numbers assumed not negative).  A line of the reviewed baseline
 parenthesis, a wrong operand — is a broken obligation.
 
 Soundness (`Proofs/SignSound.lean`): `absBody_sound` (mutual induction over the whole DSL, loops by a
-checked invariant), `closedWith_line`, and `nnLine_sound_partial3` (`Proofs/SignSound2.lean`): for a line
+checked invariant), `closedWith_line`, and `nnLine_sound_partial4` (`Proofs/SignSound2.lean`): for a line
 that passes the analysis, against ALL stores whose inputs are not negative (a) and whose stored values under
 keys of `S` are not-negative numbers (b), a value returned by `Dsl.run` of `evalLine` is a not-negative
 number.  Proved for the whole language including the field wrapper, the builtin table (`max`/`min` with the
 NaN-safe rule, `float`, `ceil`, `len`, `list`, `range`, `str`), `+ - * /`, thresholds, indexing, loops and
-helper calls; PARTIAL: relative to the four facts of `RestFacts3` that are still assumed — `float(int)` of a
-not-negative int is not negative (`IntToFloatNN`), `round` preserves sign (`RoundFact`; one use in the forms),
-and the two string lemmas that an f-string / qualified key denotes the (class, line) the analysis computed
+helper calls, `float(int)` (`intToFloatNN`); PARTIAL: relative to the three facts of `RestFacts4` that are
+still assumed — `round` preserves sign (`RoundFact`; one use in the forms), and the two string lemmas that an f-string / qualified key denotes the (class, line) the analysis computed
 (`fstr`, `key`).
 -/
 set_option autoImplicit false
@@ -69,6 +68,8 @@ end HabuVerif.C15Sign
 #print axioms HabuVerif.Sign.nnLine_sound_partial2
 #print axioms HabuVerif.Sign.opFacts_of
 #print axioms HabuVerif.Sign.nnLine_sound_partial3
+#print axioms HabuVerif.Sign.nnLine_sound_partial4
+#print axioms HabuVerif.Sign.intToFloatNN
 #print axioms HabuVerif.Sign.restFacts_of
 #print axioms HabuVerif.Sign.wrapFact
 #print axioms HabuVerif.Sign.call_sound
